@@ -106,12 +106,14 @@ def variant_key(defs):
 
 
 def prune_impl(keep):
+    """Bound the disk used by cached builds: keep the 20 most recently used trees, never touch one used in the last 2 hours."""
     base = os.path.join(BUILD, 'impl')
     if not os.path.isdir(base):
         return
+    now = time.time()
     ds = sorted((os.path.getmtime(os.path.join(base, d)), d) for d in os.listdir(base))
-    for _, d in ds[:-3]:
-        if d != keep:
+    for mt, d in ds[:-20]:
+        if d != keep and now - mt > 7200:
             shutil.rmtree(os.path.join(base, d), ignore_errors=True)
 
 
